@@ -1,42 +1,57 @@
 ----------------------------- MODULE Process -----------------------------
 (***************************************************************************)
 (* C20, confluence half.  Several conversions in the library walk a Go map *)
-(* (randomised order) and stop at the first match; the observable result   *)
-(* is independent of the iteration order only if all orders agree.         *)
-(* The type registry is one such map: fillHashHelper / CallGoMethod scan   *)
-(* GoStructRegistry.Registry for the first entry whose factory produces    *)
-(* the Go type at hand and name the resulting record after that entry.     *)
+(* (randomised order) and the observable result is fixed by the FIRST      *)
+(* entry of some class that the walk meets; the result is independent of   *)
+(* the iteration order only if all orders agree.  The modelled walks:      *)
+(*  - the type registry: fillHashHelper / CallGoMethod scan                *)
+(*    GoStructRegistry.Registry for the first entry whose factory produces *)
+(*    the Go type at hand and name the resulting record after that entry   *)
+(*    (class of an entry = the Go type of its factory's product);          *)
+(*  - the fields of a record converted to its Go struct: SexpToGoStructs   *)
+(*    stops at the first field the struct cannot take and names it in the  *)
+(*    error (class "bad");                                                 *)
+(*  - the members of a package scope being printed: the first member that  *)
+(*    holds a given package/hash/function is spelled out, the later ones   *)
+(*    refer back to it (class = identity of the value).                    *)
 (*                                                                         *)
-(* The registry content is NOT hard-coded: the harness dumps the live      *)
-(* registry (name, Go type of the factory's product) of an interpreter     *)
-(* with the demo data imported, and TLC explores every iteration order of  *)
-(* the scan as nondeterministic choices.  Confluent must hold in every     *)
-(* state where the scan has answered.                                      *)
+(* The tables are NOT hard-coded: the harness dumps the live ones (zv      *)
+(* determ -registry) and TLC explores every iteration order of each walk   *)
+(* as nondeterministic choices.  Confluent must hold in every state where  *)
+(* the walk has answered.                                                  *)
 (***************************************************************************)
 EXTENDS Integers, Sequences, FiniteSets, Json, IOUtils, TLC
 
 ASSUME TLCSet(12, ndJsonDeserialize(IOEnv.VERIF_REGISTRY))
-Reg == TLCGet(12)[1].entries           \* sequence of <<name, gotype>>
-Targets == {Reg[i][2] : i \in 1..Len(Reg)} \ {"", "<nil>", "<error>"}
+Walks == TLCGet(12)[1].walks           \* sequence of [name, entries: sequence of <<key, class>>]
+Reg == TLCGet(12)[1].entries           \* the registry walk (kept for the evidence count)
+NoClass == {"", "<nil>", "<error>", "ok"}
+Targets(w) == {Walks[w].entries[i][2] : i \in 1..Len(Walks[w].entries)} \ NoClass
 
-CONSTANT ScanAsPinned   \* TRUE: `for name := range Registry` (Go map order, the pinned commit);
-                        \* FALSE: the repaired scan follows registration order
+CONSTANT ScanAsPinned   \* TRUE: `for k := range aGoMap` (Go map order, the pinned commit);
+                        \* FALSE: the repaired walk follows insertion order (registration order, key order,
+                        \*        sorted names)
 
-VARIABLES target, visited, answer
-vars == <<target, visited, answer>>
+VARIABLES walk, target, visited, answer
+vars == <<walk, target, visited, answer>>
 
-Init == target \in Targets /\ visited = {} /\ answer = ""
+Init == /\ walk \in 1..Len(Walks)
+        /\ target \in Targets(walk)
+        /\ visited = {} /\ answer = ""
 
-(* one step of `for name, factory := range Registry`: any unvisited entry *)
+E(i) == Walks[walk].entries[i]
+N == Len(Walks[walk].entries)
+
+(* one step of `for key, entry := range theMap`: any unvisited entry *)
 Scan == /\ answer = ""
-        /\ \E i \in (1..Len(Reg)) \ visited :
-              /\ ScanAsPinned \/ \A j \in (1..Len(Reg)) \ visited : i <= j
+        /\ \E i \in (1..N) \ visited :
+              /\ ScanAsPinned \/ \A j \in (1..N) \ visited : i <= j
               /\ visited' = visited \cup {i}
-              /\ answer' = IF Reg[i][2] = target THEN Reg[i][1] ELSE ""
-        /\ UNCHANGED target
+              /\ answer' = IF E(i)[2] = target THEN E(i)[1] ELSE ""
+        /\ UNCHANGED <<walk, target>>
 
 Spec == Init /\ [][Scan]_vars
 
-Canon(t) == Reg[CHOOSE i \in 1..Len(Reg) : Reg[i][2] = t /\ \A j \in 1..(i-1) : Reg[j][2] # t][1]
-Confluent == answer # "" => answer = Canon(target)
+Canon == E(CHOOSE i \in 1..N : E(i)[2] = target /\ \A j \in 1..(i-1) : E(j)[2] # target)[1]
+Confluent == answer # "" => answer = Canon
 =============================================================================
